@@ -212,6 +212,24 @@ for _h, _can in (("roundtrip", [dict(name="count_of_the_wrong_container", where=
     UNITS.append(dict(name="c09_statestorage_" + _h, template="C09/state_storage.c", mode="plain", entry="h_ss_" + _h, sources=ST_SRC, flags=D.PFLAGS, unwind=6, level="bounded", bound="sets of <= 3 states", backend="minisat", timeout=300,
                       functions=["StateStorage::store(ostream)", "StateStorage::load(istream)", "StateStorage::storeStates", "StateStorage::loadStates"], canaries=_can))
 
+CPDC = "src/ompl/control/src/PlannerData.cpp"
+DC_RULES = [
+    (r"numVertices\(\)", "NUM_VERTICES()", 0), (r"PlannerDataVertex &vtx = getVertex\(i\);", "", 0),
+    (r"decoupledStates_\.find\(const_cast<State \*>\(vtx\.getState\(\)\)\) == decoupledStates_\.end\(\)", "!DEC_STATES_HAS(V_state[i])", 0),
+    (r"const State \*oldState = vtx\.getState\(\);", "int oldState = V_state[i];", 0), (r"State \*clone = si_->cloneState\(oldState\);", "int clone = CLONE_STATE(oldState);", 0),
+    (r"decoupledStates_\.insert\(clone\);", "DEC_STATES_INSERT(clone);", 0), (r"vtx\.state_ = clone;", "V_state[i] = clone;", 0), (r"stateIndexMap_\.erase\(oldState\);", "MAP_ERASE(oldState);", 0), (r"stateIndexMap_\[clone\] = i;", "MAP_SET(clone, i);", 0),
+    (r"ompl::base::PlannerData::decoupleFromPlanner\(\);", "BASE_DECOUPLE();", 0), (r"edgeExists\(i, j\)", "EDGE_exists[i][j]", 0),
+    (r"auto &edge = static_cast<PlannerDataEdgeControl &>\(getEdge\(i, j\)\);", "", 0), (r"auto \*ctrl = const_cast<Control \*>\(edge\.getControl\(\)\);", "int ctrl = E_ctrl[i][j];", 0),
+    (r"decoupledControls_\.find\(ctrl\) == decoupledControls_\.end\(\)", "!DEC_CTRLS_HAS(ctrl)", 0), (r"Control \*clone = siC_->cloneControl\(ctrl\);", "int clone = CLONE_CONTROL(ctrl);", 0),
+    (r"decoupledControls_\.insert\(clone\);", "DEC_CTRLS_INSERT(clone);", 0), (r"edge\.c_ = clone;", "E_ctrl[i][j] = clone;", 0),
+]
+DC_SRC = [dict(name="pd_decouple", file=PDC, sig=r"void ompl::base::PlannerData::decoupleFromPlanner\(\)", rules=DC_RULES, loops={"allow_uncontracted": True}),
+          dict(name="cpd_decouple", file=CPDC, sig=r"void ompl::control::PlannerData::decoupleFromPlanner\(\)", rules=DC_RULES, loops={"allow_uncontracted": True})]
+for _h, _fn, _can in (("pd_decouple", "ompl::base::PlannerData::decoupleFromPlanner", [dict(name="old_pointer_still_mapped", where="body:pd_decouple", rx=r"MAP_ERASE\(oldState\);", repl=";")]),
+                      ("cpd_decouple", "ompl::control::PlannerData::decoupleFromPlanner", [dict(name="clone_not_installed_in_the_edge", where="body:cpd_decouple", rx=r"E_ctrl\[i\]\[j\] = clone;", repl=";")])):
+    UNITS.append(dict(name="c09_plannerdata_" + _h, template="C09/decouple.c", mode="plain", entry="h_" + _h, sources=DC_SRC, flags=D.PFLAGS, unwind=6, level="bounded", bound="<= 3 vertices, <= 9 edges", backend="minisat", timeout=300,
+                      functions=[_fn], canaries=_can))
+
 UNITS.append(D.wrapper_unit("c09_wrapper_forwarders"))
 ASSUMPTIONS = ["compound: component (de)serializers are addressed by index and touch exactly len_i bytes at the address they are given (leaf contract); <= 64 components, each <= 4096 bytes",
                "std::sort / std::binary_search / std::map::find are modelled by an insertion sort, a real binary search and the identity map (trusted helpers)",
